@@ -117,12 +117,17 @@ Ev(e, a, o, v) == [ev |-> e, a |-> a, o |-> o, v |-> v]
 Log(e) == hist' = Append(hist, e)
 Log2(e1, e2) == hist' = hist \o <<e1, e2>>
 
-Frame(k, o, a) == [k |-> k, pc |-> 1, o |-> o, a |-> a, g |-> "none", pal |-> FALSE, cl |-> FALSE, uw |-> FALSE]
+\* uw (destructor frames): 0 = running normally
+\*   1 = a field's drop panicked: the slice glue's landing pad drops the remaining fields (calls from a landing pad)
+\*   2 = the Drop::drop body panicked: the fields are dropped by ONE call made from the object glue's landing pad
+\*   3 = inside 2 a field's drop panicked: remaining fields dropped from the slice glue's landing pad; when that is
+\*       done the second panic leaves a call made from a landing pad: abort
+Frame(k, o, a) == [k |-> k, pc |-> 1, o |-> o, a |-> a, g |-> "none", pal |-> FALSE, cl |-> FALSE, uw |-> 0]
 
 Top == stack[Len(stack)]
 Below == SubSeq(stack, 1, Len(stack) - 1)
 SetTop(f) == [stack EXCEPT ![Len(stack)] = f]
-InCleanup == \E i \in 1..Len(stack) : stack[i].cl      \* some frame below was called from a landing pad
+Panicking == \E i \in 1..Len(stack) : stack[i].uw > 0     \* std::thread::panicking() (a panic is in flight)
 CbDepth == Cardinality({ i \in 1..Len(stack) : stack[i].k \in {"dtor", "init", "itc"} })
 
 Occ == { o \in Obj : slot[o] = "occ" }
@@ -150,11 +155,11 @@ Released(f, panicking, catches) ==
       [] prog.disc = "refcell" -> IF f.g = "ex" THEN [guard EXCEPT !.ex = FALSE] ELSE [guard EXCEPT !.sh = @ - 1]
       [] OTHER -> guard
 
-\* A panic is raised by the top frame (message class cls). Escaping a destructor that runs during unwinding aborts.
+\* A panic is raised by the top frame (message class cls) and starts unwinding. (It aborts the process later, if and
+\* when it tries to leave a call that was made from a landing pad: see Unwind.)
 RaiseVars(cls, pre) ==
     /\ hist' = hist \o pre \o <<Ev("panic", cls, 0, 0)>>
-                    \o (IF InCleanup THEN <<Ev("panic", "cleanup", 0, 0)>> ELSE <<>>)   \* "panic in a destructor during cleanup"
-    /\ IF InCleanup THEN term' = "abort" /\ unw' = unw ELSE unw' = TRUE /\ term' = term
+    /\ unw' = TRUE /\ term' = term
 
 -----------------------------------------------------------------------------------------------------------
 (* Init *)
@@ -262,7 +267,7 @@ AcquireStep(mode) ==
     LET f == Top  r == TryAcq(mode) IN
     CASE r = "ok" ->
            /\ guard' = Acquired(mode)
-           /\ stack' = SetTop([f EXCEPT !.pc = 2, !.g = IF prog.disc = "none" THEN "none" ELSE mode, !.pal = InCleanup])
+           /\ stack' = SetTop([f EXCEPT !.pc = 2, !.g = IF prog.disc = "none" THEN "none" ELSE mode, !.pal = Panicking])
            /\ UNCHANGED <<hist, unw, term>>
       [] r = "deadlock" ->
            /\ term' = "deadlock"
@@ -334,16 +339,20 @@ DtorFrame ==
          [] f.pc = 3 /\ Owned(x) # {} ->         \* drop glue: next owned handle
               /\ LET y == Min(Owned(x)) IN
                  /\ Log(Ev("act", "drop", y, 0))
-                 /\ stack' = Append(SetTop([f EXCEPT !.pc = 4]), [Frame("drop", y, "-") EXCEPT !.cl = f.uw])
+                 /\ stack' = Append(SetTop([f EXCEPT !.pc = 4]), [Frame("drop", y, "-") EXCEPT !.cl = (f.uw \in {1, 3})])
               /\ UNCHANGED <<prog, ost, slot, owner, rc, count, length, slabs, guard, unw, term, mpc, next, rv>>
          [] f.pc = 4 ->
               /\ Log(Ev("actret", "drop", 0, 0))
               /\ stack' = SetTop([f EXCEPT !.pc = 3])
               /\ UNCHANGED <<prog, ost, slot, owner, rc, count, length, slabs, guard, unw, term, mpc, next, rv>>
-         [] f.pc = 3 /\ Owned(x) = {} ->         \* glue finished; if we are on a landing pad, keep unwinding
+         [] f.pc = 3 /\ Owned(x) = {} /\ f.uw < 3 ->   \* glue finished; if a panic is in flight, keep unwinding
               /\ stack' = Below
-              /\ unw' = f.uw
+              /\ unw' = (f.uw > 0)
               /\ UNCHANGED <<prog, ost, slot, owner, rc, count, length, slabs, guard, term, mpc, next, rv, hist>>
+         [] f.pc = 3 /\ Owned(x) = {} /\ f.uw = 3 ->   \* the second panic leaves the call made from the landing pad
+              /\ term' = "abort"
+              /\ Log(Ev("panic", "cleanup", 0, 0))
+              /\ UNCHANGED <<prog, ost, slot, owner, rc, count, length, slabs, guard, stack, unw, mpc, next, rv>>
          [] OTHER -> FALSE
 
 (* pool.len() / capacity(): guard (shared for RefCell), read, release *)
@@ -504,21 +513,28 @@ ItcFrame ==
 Unwind ==
     /\ term = "" /\ unw /\ stack # <<>>
     /\ LET f == Top IN
-       CASE f.k = "dtor" /\ ~f.uw ->
-              \* the body (or a field's drop) panicked: the remaining fields are dropped on the landing pad
-              /\ stack' = SetTop([f EXCEPT !.pc = 3, !.uw = TRUE])
+       CASE f.cl ->
+              \* the panic is about to leave a call that was made from a landing pad:
+              \* "panic in a destructor during cleanup", abort
+              /\ term' = "abort"
+              /\ hist' = Append(hist, Ev("panic", "cleanup", 0, 0))
+              /\ UNCHANGED <<guard, stack, unw>>
+         [] f.k = "dtor" /\ f.uw \in {0, 2} ->
+              \* the body panicked (pc <= 2): fields dropped by a call from the glue's landing pad (2);
+              \* a field's drop panicked (pc = 4): the remaining fields are dropped from the slice glue's landing pad (1, 3)
+              /\ stack' = SetTop([f EXCEPT !.pc = 3, !.uw = IF f.uw = 2 THEN 3 ELSE IF f.pc = 4 THEN 1 ELSE 2])
               /\ unw' = FALSE
-              /\ UNCHANGED <<guard, hist>>
+              /\ UNCHANGED <<guard, hist, term>>
          [] f.k \in {"iw", "wi"} ->
               \* managed: catch_unwind, drop(guard) outside the panic, resume_unwind;  local: RefMut/Ref dropped
               /\ guard' = Released(f, TRUE, CatchUnwind)
               /\ stack' = Below
-              /\ UNCHANGED <<unw, hist>>
+              /\ UNCHANGED <<unw, hist, term>>
          [] OTHER ->
               /\ guard' = Released(f, TRUE, FALSE)
               /\ stack' = Below
-              /\ UNCHANGED <<unw, hist>>
-    /\ UNCHANGED <<prog, ost, slot, owner, rc, count, length, slabs, term, mpc, busy, next, rv>>
+              /\ UNCHANGED <<unw, hist, term>>
+    /\ UNCHANGED <<prog, ost, slot, owner, rc, count, length, slabs, mpc, busy, next, rv>>
 
 \* the process is gone (deadlock -> killed by the watchdog; abort)
 Dead ==
